@@ -33,8 +33,13 @@ func loadPrelude() string {
 		sb.Write(b)
 		sb.WriteString("\n")
 	}
-	return sb.String()
+	full, lemmas := expandLemmas(sb.String())
+	preludeLemmas = lemmas
+	return full
 }
+
+// lemmas of the prelude (set by loadPrelude)
+var preludeLemmas []*Lemma
 
 var reHeapFn = regexp.MustCompile(`\((?:define-fun|declare-fun|define-fun-rec)\s+([A-Za-z_][A-Za-z0-9_.]*)\s+\(\s*(?:\(h Heap\)|Heap)`)
 var reFnDecl = regexp.MustCompile(`\((?:define-fun|define-fun-rec)\s+([A-Za-z_][A-Za-z0-9_.]*)\s+\(((?:\([^()]*\)\s*)*)\)\s+([A-Za-z0-9]+)`)
@@ -136,6 +141,13 @@ func runSolverCtx(parent context.Context, s solverSpec, query string, timeoutS i
 }
 
 func (x *Exec) queryText(o *Oblig, prelude string) string {
+	if strings.HasPrefix(o.Func, "lemma:") {
+		for _, lm := range preludeLemmas {
+			if "lemma:"+lm.Name == o.Func {
+				prelude = lm.Before // only what precedes the lemma: no circularity
+			}
+		}
+	}
 	var sb strings.Builder
 	var body strings.Builder
 	for _, l := range o.Ctx {
@@ -394,10 +406,20 @@ func stripComments(s string) string {
 	return sb.String()
 }
 
+var mainPrelude string
+
 func initPrelude(pre string) {
 	if preItems != nil {
 		return
 	}
+	mainPrelude = pre
+	ix := buildIndex(pre)
+	preItems, preSyms = ix.items, ix.syms
+}
+
+func buildIndex(pre string) *preIdx {
+	var preItems []*preItem
+	var preSyms map[string]bool
 	preSyms = map[string]bool{}
 	reDecl := regexp.MustCompile(`^\((declare-fun|define-fun|declare-const|declare-sort)\s+([A-Za-z_][A-Za-z0-9_.]*)`)
 	reCtor := regexp.MustCompile(`\(([A-Za-z_][A-Za-z0-9_]*)`)
@@ -437,13 +459,34 @@ func initPrelude(pre string) {
 			}
 		}
 	}
+	return &preIdx{preItems, preSyms}
 }
 
 var alwaysSyms = []string{"Val", "Heap", "Str", "F64", "mkHeap", "VNil", "select", "store"}
 
 // prunedPrelude returns the part of the prelude relevant to body.
+// indices of prelude texts other than the main one (lemma proofs use the prefix preceding the lemma)
+var altIndexMu sync.Mutex
+var altIndex = map[string]*preIdx{}
+
+type preIdx struct {
+	items []*preItem
+	syms  map[string]bool
+}
+
 func prunedPrelude(pre, body string) string {
 	initPrelude(pre)
+	preItems, preSyms := preItems, preSyms // the main index, unless another prelude text is given
+	if pre != mainPrelude {
+		altIndexMu.Lock()
+		ix := altIndex[pre]
+		if ix == nil {
+			ix = buildIndex(pre)
+			altIndex[pre] = ix
+		}
+		altIndexMu.Unlock()
+		preItems, preSyms = ix.items, ix.syms
+	}
 	used := map[string]bool{}
 	for _, sy := range reSym.FindAllString(body, -1) {
 		if preSyms[sy] {
